@@ -57,6 +57,9 @@ struct Node {
     system: SharedSystem,
     addr: String,
     conns: HashMap<u32, TcpClient>,
+    hl: HashMap<u32, iggy::clients::client::IggyClient>,
+    producers: HashMap<u32, iggy::clients::producer::IggyProducer>,
+    consumers: HashMap<u32, iggy::clients::consumer::IggyConsumer>,
     tokens: Vec<String>,
     raws: HashMap<u32, tokio::net::TcpStream>,
     maintain_cmd: Option<MaintainMessagesCommand>,
@@ -345,6 +348,9 @@ pub async fn run() {
         system,
         addr: addr.to_string(),
         conns: HashMap::new(),
+        hl: HashMap::new(),
+        producers: HashMap::new(),
+        consumers: HashMap::new(),
         // raw tokens survive the incarnation in a side file OUTSIDE the data directory
         tokens: std::fs::read_to_string(format!("{dir}.tokens"))
             .map(|t| t.lines().map(|l| l.to_string()).collect())
@@ -379,6 +385,11 @@ pub async fn run() {
     }
     // stdin closed without a shutdown: this is a crash
     std::process::exit(0);
+}
+
+/// `#5` → "5", `@name` → "name": the high-level builders take plain strings
+fn hl_name(s: &str) -> String {
+    s.trim_start_matches(['#', '@']).to_string()
 }
 
 fn dir_size(path: &str) -> u64 {
@@ -762,6 +773,177 @@ impl Node {
                 "ok".into()
             }
             "stress" => self.stress(f).await,
+            // ---- the SDK's high-level clients (C20) ----
+            "hl" => {
+                // hl <h> : IggyClient over its own TCP connection, logged in as root
+                use iggy::clients::client::IggyClient;
+                let mut cfg = TcpClientConfig::default();
+                cfg.server_address = self.addr.clone();
+                cfg.reconnection.enabled = false;
+                cfg.heartbeat_interval = IggyDuration::from_str("1000h").unwrap();
+                let tcp = r!(TcpClient::create(Arc::new(cfg)));
+                let client = IggyClient::new(Box::new(tcp));
+                r!(client.connect().await);
+                r!(client.login_user("iggy", "iggy").await);
+                let me = r!(client.get_me().await);
+                self.hl.insert(f[1].parse().unwrap(), client);
+                format!("ok client={}", me.client_id)
+            }
+            "producer" => {
+                // producer <p> <h> <stream> <topic> <batch|-> <interval_us|-> <partitioning|->
+                let Some(client) = self.hl.get(&f[2].parse::<u32>().unwrap()) else {
+                    return "err no-such-hl-client".into();
+                };
+                let mut b = r!(client.producer(&hl_name(f[3]), &hl_name(f[4])));
+                b = match f[5] {
+                    "-" => b.without_batch_size(),
+                    n => b.batch_size(n.parse().unwrap()),
+                };
+                b = match f[6] {
+                    "-" => b.without_send_interval(),
+                    us => b.send_interval(IggyDuration::from(us.parse::<u64>().unwrap())),
+                };
+                b = match f[7] {
+                    "-" => b.without_partitioning(),
+                    x => b.partitioning(partitioning(x)),
+                };
+                let mut producer = b
+                    .do_not_create_stream_if_not_exists()
+                    .do_not_create_topic_if_not_exists()
+                    .send_retries(None, None)
+                    .build();
+                r!(producer.init().await);
+                self.producers.insert(f[1].parse().unwrap(), producer);
+                "ok".into()
+            }
+            "psend" => {
+                // psend <p> send <msgs> | one <msg> | part <partitioning|-> <msgs> | to <s> <t> <partitioning|-> <msgs>
+                let Some(p) = self.producers.get(&f[1].parse::<u32>().unwrap()) else {
+                    return "err no-such-producer".into();
+                };
+                let opt_part = |x: &str| {
+                    if x == "-" {
+                        None
+                    } else {
+                        Some(Arc::new(partitioning(x)))
+                    }
+                };
+                match f[2] {
+                    "send" => r!(p.send(messages(f[3])).await),
+                    "one" => r!(p.send_one(messages(f[3]).remove(0)).await),
+                    "part" => r!(p.send_with_partitioning(messages(f[4]), opt_part(f[3])).await),
+                    "to" => r!(p
+                        .send_to(
+                            Arc::new(ident(f[3])),
+                            Arc::new(ident(f[4])),
+                            messages(f[6]),
+                            opt_part(f[5])
+                        )
+                        .await),
+                    _ => return "err bad-psend".into(),
+                }
+                "ok".into()
+            }
+            "consumer" => {
+                // consumer <c> <h> <name> <stream> <topic> <pid|group> <strategy> <batch> <mode> <replay 0|1>
+                use iggy::clients::consumer::{AutoCommit, AutoCommitWhen};
+                let Some(client) = self.hl.get(&f[2].parse::<u32>().unwrap()) else {
+                    return "err no-such-hl-client".into();
+                };
+                let b = if f[6] == "group" {
+                    r!(client.consumer_group(f[3], &hl_name(f[4]), &hl_name(f[5])))
+                } else {
+                    r!(client.consumer(f[3], &hl_name(f[4]), &hl_name(f[5]), f[6].parse().unwrap()))
+                };
+                let mode = match f[9] {
+                    "disabled" => AutoCommit::Disabled,
+                    "polling" => AutoCommit::When(AutoCommitWhen::PollingMessages),
+                    "each" => AutoCommit::When(AutoCommitWhen::ConsumingEachMessage),
+                    "all" => AutoCommit::When(AutoCommitWhen::ConsumingAllMessages),
+                    m if m.starts_with("nth:") => AutoCommit::When(
+                        AutoCommitWhen::ConsumingEveryNthMessage(m[4..].parse().unwrap()),
+                    ),
+                    m if m.starts_with("int:") => {
+                        AutoCommit::Interval(IggyDuration::from(m[4..].parse::<u64>().unwrap()))
+                    }
+                    _ => return "err bad-mode".into(),
+                };
+                let mut b = b
+                    .polling_strategy(strategy(f[7]))
+                    .batch_size(f[8].parse().unwrap())
+                    .auto_commit(mode)
+                    .without_poll_interval()
+                    .polling_retry_interval(IggyDuration::from(1000u64));
+                if f[10] == "1" {
+                    b = b.allow_replay();
+                }
+                let mut consumer = b.build();
+                r!(consumer.init().await);
+                self.consumers.insert(f[1].parse().unwrap(), consumer);
+                "ok".into()
+            }
+            "cnext" => {
+                // cnext <c> <k> <timeout_ms> : up to k messages from the consumer's Stream
+                use futures::StreamExt;
+                let Some(c) = self.consumers.get_mut(&f[1].parse::<u32>().unwrap()) else {
+                    return "err no-such-consumer".into();
+                };
+                let k: usize = f[2].parse().unwrap();
+                let t = std::time::Duration::from_millis(f[3].parse().unwrap());
+                let mut out = vec![];
+                let mut end = "";
+                for _ in 0..k {
+                    match tokio::time::timeout(t, c.next()).await {
+                        Err(_) => {
+                            end = "stall";
+                            break;
+                        }
+                        Ok(None) => {
+                            end = "end";
+                            break;
+                        }
+                        Ok(Some(Ok(m))) => out.push(format!(
+                            "{}:{}:{}",
+                            m.partition_id, m.message.offset, m.message.id
+                        )),
+                        Ok(Some(Err(e))) => {
+                            out.push(err_name(&e).replace(' ', "_"));
+                            end = "error";
+                            break;
+                        }
+                    }
+                }
+                format!("ok {} {}", if out.is_empty() { "-".into() } else { out.join(",") }, end)
+                    .trim_end()
+                    .to_string()
+            }
+            "cstore" => {
+                // cstore <c> <offset> <pid|->
+                let Some(c) = self.consumers.get(&f[1].parse::<u32>().unwrap()) else {
+                    return "err no-such-consumer".into();
+                };
+                r!(c.store_offset(f[2].parse().unwrap(), opt_u32(f[3])).await);
+                "ok".into()
+            }
+            "cdrop" => {
+                self.consumers.remove(&f[1].parse::<u32>().unwrap());
+                // queued offsets are still stored by the background task
+                tokio::time::sleep(std::time::Duration::from_millis(30)).await;
+                "ok".into()
+            }
+            "hl-close" => {
+                // hl-close <h> : the connection goes away (group membership ends on the server)
+                if let Some(c) = self.hl.remove(&f[1].parse::<u32>().unwrap()) {
+                    let _ = c.disconnect().await;
+                    drop(c);
+                    tokio::time::sleep(std::time::Duration::from_millis(60)).await;
+                }
+                "ok".into()
+            }
+            "cwait" => {
+                tokio::time::sleep(std::time::Duration::from_millis(f[1].parse().unwrap())).await;
+                "ok".into()
+            }
             "raw-open" => {
                 match tokio::net::TcpStream::connect(&self.addr).await {
                     Ok(st) => {
